@@ -7,11 +7,14 @@ package gmtls
 import (
 	"crypto"
 	"crypto/cipher"
+	"crypto/ecdsa"
+	"crypto/elliptic"
 	"crypto/hmac"
 	"encoding/pem"
 	"errors"
 	"fmt"
 	"io/ioutil"
+	"math/big"
 	"strings"
 	"sync"
 
@@ -396,23 +399,33 @@ func matchKeyCert(keyDERBlock *pem.Block, certDERBlock []byte) (crypto.PrivateKe
 		return nil, err
 	}
 
+	// x509.ParseCertificate returns the public key of an SM2 certificate as
+	// an *ecdsa.PublicKey on the SM2 curve, so compare curve and coordinates.
+	var curve elliptic.Curve
+	var x, y *big.Int
 	switch pub := x509Cert.PublicKey.(type) {
 	case *sm2.PublicKey:
-		priv, ok := privateKey.(*sm2.PrivateKey)
-		if !ok {
-			return nil, errors.New("tls: private key type does not match public key type")
-		}
-		if pub.X.Cmp(priv.X) != 0 || pub.Y.Cmp(priv.Y) != 0 {
-			return nil, errors.New("tls: private key does not match public key")
-		}
+		curve, x, y = pub.Curve, pub.X, pub.Y
+	case *ecdsa.PublicKey:
+		curve, x, y = pub.Curve, pub.X, pub.Y
 	default:
 		return nil, errors.New("tls: unknown public key algorithm")
+	}
+	priv, ok := privateKey.(*sm2.PrivateKey)
+	if !ok || curve != sm2.P256Sm2() {
+		return nil, errors.New("tls: private key type does not match public key type")
+	}
+	if x.Cmp(priv.X) != 0 || y.Cmp(priv.Y) != 0 {
+		return nil, errors.New("tls: private key does not match public key")
 	}
 	return privateKey, nil
 }
 
-// X509KeyPair parses a public/private key pair from a pair of
-// PEM encoded data. On successful return, Certificate.Leaf will be nil because
+// GMX509KeyPairs parses a signing and an encryption public/private key pair
+// from PEM encoded data and checks that each private key matches its
+// certificate. The returned Certificate holds the signing certificate, the
+// encryption certificate (in this order) and the signing private key.
+// On successful return, Certificate.Leaf will be nil because
 // the parsed form of the certificate is not retained.
 func GMX509KeyPairs(certPEMBlock, keyPEMBlock, encCertPEMBlock, encKeyPEMBlock []byte) (Certificate, error) {
 	fail := func(err error) (Certificate, error) { return Certificate{}, err }
@@ -444,6 +457,17 @@ func GMX509KeyPairs(certPEMBlock, keyPEMBlock, encCertPEMBlock, encKeyPEMBlock [
 
 	certificate.PrivateKey, err = matchKeyCert(keyDERBlock, certificate.Certificate[0])
 	if err != nil {
+		return fail(err)
+	}
+
+	// Certificate has room for one private key only, the signing key. The
+	// encryption key is still parsed and checked against the encryption
+	// certificate, so that a wrong or swapped key is reported here.
+	encKeyDERBlock, err := getKey(encKeyPEMBlock)
+	if err != nil {
+		return fail(err)
+	}
+	if _, err = matchKeyCert(encKeyDERBlock, certificate.Certificate[1]); err != nil {
 		return fail(err)
 	}
 
